@@ -201,6 +201,26 @@ where
         // --------------
         lhs.κ = -(rhs.κ + variables.κ * lhs.τ) / variables.τ;
 
+        #[cfg(clarabel_verif)]
+        if crate::verif_hooks::trace::armed() {
+            use crate::verif_hooks::trace::{f, fv, observe, Event};
+            observe(Event::KktSolve {
+                dir: step_direction as u32,
+                lhs_x: fv(&lhs.x),
+                lhs_z: fv(&lhs.z),
+                lhs_s: fv(&lhs.s),
+                lhs_tau: f(lhs.τ),
+                lhs_kappa: f(lhs.κ),
+                rhs_x: fv(&rhs.x),
+                rhs_z: fv(&rhs.z),
+                rhs_tau: f(rhs.τ),
+                rhs_kappa: f(rhs.κ),
+                x: fv(&variables.x),
+                tau: f(variables.τ),
+                kappa: f(variables.κ),
+            });
+        }
+
         // we don't check the validity of anything
         // after the KKT solve, so just return is_success
         // without further validation
